@@ -34,6 +34,8 @@ pub enum Op {
     Delete { t: u8, lo: u16, hi: u16 },
     Txn { t: u8, keys: Vec<u16>, len: u8, commit: bool },
     Flush,
+    /// DROP TABLE + CREATE TABLE of the same name (page release and reuse), optionally checkpointed before the first insert
+    Recreate { t: u8, flush: bool },
 }
 
 #[derive(Clone, Debug, Serialize, Deserialize, Hash)]
@@ -96,6 +98,7 @@ fn run_script(s: &Script, cfg: Cfg) -> RunOut {
     };
     let nt = s.ntables.clamp(1, 3);
     let mut inserted = vec![0u16; 3];
+    let mut insert_stmts = 0usize;
     let mut stmt = |db: &mut Db, sql: String, out: &mut RunOut| -> bool {
         let before = axmosdb::verif::io::event_count();
         let r = db.exec(&sql);
@@ -134,6 +137,7 @@ fn run_script(s: &Script, cfg: Cfg) -> RunOut {
                     continue;
                 }
                 inserted[t] += keys.len() as u16;
+                insert_stmts += 1;
                 let rows: Vec<String> = keys.iter().map(|k| format!("({}, '{}', {})", k, text(*k, *len), *k as i32 - 300)).collect();
                 if !stmt(&mut db, format!("INSERT INTO t{t} VALUES {}", rows.join(", ")), &mut out) {
                     break 'ops;
@@ -168,6 +172,7 @@ fn run_script(s: &Script, cfg: Cfg) -> RunOut {
                     continue;
                 }
                 inserted[t] += keys.len() as u16;
+                insert_stmts += keys.len();
                 for k in &keys {
                     let sql = format!("INSERT INTO t{t} VALUES ({}, '{}', {})", k, text(*k, *len), *k as i32 - 300);
                     let o = observe(db.sexec(0, &sql));
@@ -188,6 +193,29 @@ fn run_script(s: &Script, cfg: Cfg) -> RunOut {
                     Ok(()) => Obs::Ddl,
                     Err(e) => Obs::Err(e.text()),
                 }));
+            }
+            Op::Recreate { t, flush } => {
+                let t = (*t % nt) as usize;
+                // every INSERT statement adds a version to the table's catalog row; large catalog cells run into
+                // the open B+tree findings on big cells (known.json, C10), which strike per page size
+                if insert_stmts > 30 {
+                    continue;
+                }
+                if !stmt(&mut db, format!("DROP TABLE t{t}"), &mut out) {
+                    break 'ops;
+                }
+                let sql = if s.pk { format!("CREATE TABLE t{t} (k INT NOT NULL, s TEXT, v INT, PRIMARY KEY (k))") } else { format!("CREATE TABLE t{t} (k INT, s TEXT, v INT)") };
+                if !stmt(&mut db, sql, &mut out) {
+                    break 'ops;
+                }
+                inserted[t] = 0;
+                if *flush {
+                    let r = db.flush();
+                    out.obs.push(("flush".into(), match r {
+                        Ok(()) => Obs::Ddl,
+                        Err(e) => Obs::Err(e.text()),
+                    }));
+                }
             }
             Op::Flush => {
                 let a = axmosdb::verif::io::event_count();
@@ -310,15 +338,25 @@ fn gen_op() -> BoxedStrategy<Op> {
         2 => (0u8..3, 0u16..600, 0u16..600).prop_map(|(t, lo, hi)| Op::Delete { t, lo, hi }),
         2 => (0u8..3, prop::collection::vec(0u16..600, 1..4), any::<u8>(), any::<bool>()).prop_map(|(t, keys, len, commit)| Op::Txn { t, keys, len, commit }),
         1 => Just(Op::Flush),
+        1 => (0u8..3, any::<bool>()).prop_map(|(t, flush)| Op::Recreate { t, flush }),
     ]
     .boxed()
 }
 
 pub fn gen_script(max_ops: usize, max_rows: u16, flush: bool) -> BoxedStrategy<Script> {
-    (1u8..4, any::<bool>(), prop::collection::vec(gen_op(), 40..max_ops), prop::collection::vec(gen_cfg(), 3..5))
-        .prop_map(move |(ntables, _pk, mut ops, cfgs)| {
+    (1u8..4, any::<bool>(), prop::collection::vec(gen_op(), 40..max_ops), prop::collection::vec(gen_cfg(), 3..5), prop::option::weighted(0.6, (3usize..24, 0u8..3, any::<bool>())))
+        .prop_map(move |(ntables, _pk, mut ops, cfgs, early)| {
+            if let Some((at, t, flush)) = early {
+                // release and reuse pages while the tables are still small
+                ops.insert(at.min(ops.len()), Op::Recreate { t, flush });
+            }
             if !flush {
                 ops.retain(|o| !matches!(o, Op::Flush));
+                for o in ops.iter_mut() {
+                    if let Op::Recreate { flush, .. } = o {
+                        *flush = false;
+                    }
+                }
             }
             Script { ntables, pk: false, ops, cfgs, max_rows }
         })
